@@ -92,6 +92,9 @@ class TagWorker(Worker):
         if fail_init_index is not None and self.worker_index == fail_init_index:
             # a transient failure when a flag file is named: it fails only while that file exists
             if fail_init_flag is None or os.path.exists(fail_init_flag):
+                if fail_init_kind == 'osexit':
+                    # the worker PROCESS dies hard while it initialises (killed for memory, a crashing extension module): no handshake at all
+                    os._exit(3)
                 if fail_init_kind == 'sysexit0':
                     # ... or leaves with the 'success' code: still a worker that did not come up
                     raise SystemExit(0 if self.worker_index % 2 else None)
